@@ -1584,6 +1584,8 @@ class Engine:
         if isinstance(a, float) or isinstance(b, float):
             if is_sym(a) or is_sym(b):
                 raise Unsupported('compare symbolic int with float')
+        if type(a).__name__ in ('SFloat', 'SComplex') or type(b).__name__ in ('SFloat', 'SComplex'):
+            raise Unsupported('ordering of float-model values')
         try:
             return [(s, NORMAL, cmp_ints(self.CMPSYM[type(op)], a, b))]
         except TypeError as e:
